@@ -164,6 +164,19 @@ Definition go_repr (g : goaddr) (ip : ipaddr) : Prop :=
   end.
 
 (* ------------------------------------------------------------------------------------------ *)
+(* conn_state.state: kernel writer (__mark_tcp_seen) vs the control plane's janitor              *)
+(* ------------------------------------------------------------------------------------------ *)
+(* what the kernel stores: SYN creates the entry with TCP_STATE_ACTIVE; a later FIN/RST stores TCP_STATE_CLOSING *)
+Definition c_state_after (fin_seen : bool) : N := if fin_seen then c_tcp_state_closing else c_tcp_state_active.
+(* cleanupConnStateMapBeforeLocked, TCP branch, normal mode: `if value.State == <literal>` selects the closing timeout *)
+Definition go_janitor_is_closing (state : N) : bool := state =? go_janitor_closing_literal.
+Definition go_janitor_deletes (state age_ns : N) : bool :=
+  if go_janitor_is_closing state then go_tcp_timeout_closing_ns <? age_ns else go_tcp_timeout_established_ns <? age_ns.
+(* the property's reading: an entry is in the closing class exactly when the kernel saw FIN/RST on it *)
+Definition spec_janitor_deletes (fin_seen : bool) (age_ns : N) : bool :=
+  if fin_seen then go_tcp_timeout_closing_ns <? age_ns else go_tcp_timeout_established_ns <? age_ns.
+
+(* ------------------------------------------------------------------------------------------ *)
 (* connectivity slot                                                                            *)
 (* ------------------------------------------------------------------------------------------ *)
 Inductive go_udp_domain := UdUnset | UdDns | UdData.
